@@ -7,10 +7,10 @@ DST="$V/seeded/$ID-$X"
 mkdir -p "$DST"
 [ -f "$SRC/$X.patch.diff" ] && cp "$SRC/$X.patch.diff" "$DST/patch.diff" && cp "$SRC/$X.demo.py" "$DST/demo.py" && cp "$SRC/$X.meta.json" "$DST/meta.json"
 D=$(mktemp -d /tmp/seedv-XXXXXX)
-git -C /repo worktree add -q --detach "$D/w" HEAD || exit 3
+flock /tmp/seedv-worktree.lock git -C /repo worktree add -q --detach "$D/w" HEAD || exit 3
 cd "$D/w"
 PYTHONPATH="$D/w" timeout 900 /venv/bin/python "$DST/demo.py" > "$D/clean.log" 2>&1; RC_CLEAN=$?
-if ! git apply "$DST/patch.diff"; then echo "PATCH DOES NOT APPLY"; git -C /repo worktree remove --force "$D/w"; rm -rf "$D"; exit 4; fi
+if ! git apply "$DST/patch.diff"; then echo "PATCH DOES NOT APPLY"; flock /tmp/seedv-worktree.lock git -C /repo worktree remove --force "$D/w"; rm -rf "$D"; exit 4; fi
 PYTHONPATH="$D/w" timeout 900 /venv/bin/python "$DST/demo.py" > "$D/changed.log" 2>&1; RC_CH=$?
 if [ -z "$SKIP_STABLE" ]; then /tmp/seedtools/run_stable.py "$D/w" > "$D/stable.log" 2>&1; RC_ST=$?; else RC_ST=skipped; fi
 RES=""
@@ -32,4 +32,4 @@ json.dump({'demo_exit_clean_tree': int(a), 'demo_exit_with_change': int(b), 'sta
            'commands': ['git apply patch.diff (scratch worktree of /repo HEAD)', 'PYTHONPATH=<worktree> /venv/bin/python demo.py', 'run pinned suite, compare with BASELINE stable_pass', 'VERIF_REPO=<worktree> ./check <ID> --tier quick']},
           open(dst + '/verify.json', 'w'), indent=1)
 PY
-git -C /repo worktree remove --force "$D/w"; rm -rf "$D"
+flock /tmp/seedv-worktree.lock git -C /repo worktree remove --force "$D/w"; rm -rf "$D"
